@@ -1203,7 +1203,8 @@ class SmtLibParser(object):
         Parse an assignment list produced by get-model and get-value
         commands in SmtLib
         """
-        symbols = self.env.formula_manager.symbols
+        # Note: parsing can create new symbols, we need a snapshot
+        symbols = dict(self.env.formula_manager.symbols)
         self.cache.update(symbols)
         tokens = Tokenizer(script, interactive=self.interactive)
         res = []
